@@ -34,6 +34,25 @@ BUILT = {
             "Return values/exception types of each operation vs the built-in are not decided.",
             "collections.abc semantics as in the running interpreter's source; builtin "
             "list/set/dict/SortedDict semantics.", "4/C16"),
+    "C07": ("wire-shape abstraction of every codec's encode/decode body (syntax-directed walk) "
+            "and comparison of the two directions; count-prefix pairing; parameter tables",
+            "Structural: for each of the 11 codec bodies the decoder's wire-shape term equals the "
+            "encoder's; every count prefix measures exactly what is written/iterated after it; "
+            "integer/float parameter tables and the codec table are consistent; get_by_uuid is "
+            "forwarded down every recursive decode; UUIDCodec resolves nodes. Value equality "
+            "itself rests on int.to_bytes/struct and is not decided.",
+            "int.to_bytes/from_bytes, struct, str.encode semantics; well-formed input (the "
+            "property's quantifier).", "4/C07"),
+    "C08": ("encoder wire-shape terms compared with a frozen reference table transcribed from "
+            "include/gtirb/AuxData.hpp; anchor scan of C++/Java type names",
+            "Structural: the wire shape of each of the 20 type-name heads (both directions, class "
+            "constants substituted, delegations flattened) equals the reference transcribed from "
+            "the documented format (widths, little-endian, IEEE, byte-counted UTF-8 strings, "
+            "uint64 counts and variant index, field order); C++/Java type names are all offered. "
+            "Cross-decoding by the Java/C++ implementations is NOT decided (would need executing "
+            "or modelling them).",
+            "the reference table is a transcription (one line per wire type, each citing its "
+            "trait); Java/C++ sources are scanned for anchors only.", "4/C08"),
 }
 
 REASON_PENDING = "check not built yet (construction phase); planned, see DESIGN.md section 4"
